@@ -138,7 +138,7 @@ func (k *DNSKEY) KeyTag() uint16 {
 	keywire.Protocol = k.Protocol
 	keywire.Algorithm = k.Algorithm
 	keywire.PublicKey = k.PublicKey
-	wire := make([]byte, DefaultMsgSize)
+	wire := make([]byte, 4+len(k.PublicKey)) // the base64 text is longer than the key it encodes
 	n, err := packKeyWire(keywire, wire)
 	if err != nil {
 		return 0
@@ -176,7 +176,7 @@ func (k *DNSKEY) ToDS(h uint8) *DS {
 	keywire.Protocol = k.Protocol
 	keywire.Algorithm = k.Algorithm
 	keywire.PublicKey = k.PublicKey
-	wire := make([]byte, DefaultMsgSize)
+	wire := make([]byte, 4+len(k.PublicKey)) // the base64 text is longer than the key it encodes
 	n, err := packKeyWire(keywire, wire)
 	if err != nil {
 		return nil
